@@ -203,8 +203,8 @@ theorem proj_finishOp (v : View) (s : CState) (r : Res) (x : Option Elem)
     · simp only [h1, if_false]
       by_cases h2 : r = .ioerr
       · simp only [h2, if_true]
-        by_cases hc : s.conc = true
-        · simp [hc]
+        by_cases hc : (s.conc && !s.reuse) = true
+        · simp only [hc, if_true]; simp
         · simp only [hc, Bool.false_eq_true, if_false]
           have hle : v.nrest ≤ s.prog.tail.length := by rw [List.length_tail]; omega
           rw [take_sub_dropWhile _ _ s.prog.tail hle, take_sub_tail _ _ hp]
@@ -794,24 +794,24 @@ theorem HInv_step {H : List Cycle} {s t : CState} {i : Nat} (hc : 1 ≤ c) (hs :
         · exact hinv'
 
 theorem HInv_init (conc acl : Bool) (flt : Fault) (cy : Cycle) (todo : List Cycle)
-    (hwf : wellFormed ac (cy :: todo) = true) :
-    HInv c ac (cy :: todo) (initState conc c ac acl (histOps (cy :: todo)) flt) := by
-  have hp : (proj (viewOf [] todo 0) (initState conc c ac acl (histOps (cy :: todo)) flt))
-      = initState conc c ac acl cy.ops flt := by
+    (hwf : wellFormed ac (cy :: todo) = true) (reuse : Bool := false) :
+    HInv c ac (cy :: todo) (initState conc c ac acl (histOps (cy :: todo)) flt reuse) := by
+  have hp : (proj (viewOf [] todo 0) (initState conc c ac acl (histOps (cy :: todo)) flt reuse))
+      = initState conc c ac acl cy.ops flt reuse := by
     simp [proj, viewOf, initState, histOps]
   refine Or.inr ⟨[], cy, todo, [], 0, rfl, rfl, hwf, Nat.zero_le _, by simp, ?_, ?_, ?_, ?_⟩
   · rw [hp]; rfl
   · rw [hp]; simp [initState, histOps]
-  · rw [hp]; exact CInv_init c ac cy conc acl flt
+  · rw [hp]; exact CInv_init c ac cy conc acl flt reuse
   · rw [hp]; exact Or.inl (cycle_ops_ne cy)
 
 /-- the invariant of a whole history holds in every reachable state -/
-theorem reach_HInv (hc : 1 ≤ c) {conc acl : Bool} {flt : Fault} {cy : Cycle} {todo : List Cycle}
+theorem reach_HInv (hc : 1 ≤ c) {conc acl : Bool} {flt : Fault} {reuse : Bool} {cy : Cycle} {todo : List Cycle}
     (hwf : wellFormed ac (cy :: todo) = true) {s : CState}
-    (h : Reach (sys conc c ac acl (histOps (cy :: todo)) flt) s) : HInv c ac (cy :: todo) s := by
+    (h : Reach (sys conc c ac acl (histOps (cy :: todo)) flt reuse) s) : HInv c ac (cy :: todo) s := by
   have : Str s ∧ HInv c ac (cy :: todo) s := by
     refine inv_of_reach _ (fun s => Str s ∧ HInv c ac (cy :: todo) s)
-      ⟨Str_init _ _ _ _ _ _, HInv_init c ac conc acl flt cy todo hwf⟩ ?_ s h
+      ⟨Str_init _ _ _ _ _ _ _, HInv_init c ac conc acl flt cy todo hwf reuse⟩ ?_ s h
     intro a i b hab hst
     exact ⟨Str_step hab.1 hst, HInv_step c ac hc hab.1 hab.2 hst⟩
   exact this.2
